@@ -69,16 +69,23 @@ where
             }
         } else {
             // tracing::trace!("new entry for {}", id);
-            self.queue.insert(id, ReassembleQueue::new(total, seq, buf));
-            self.timer.push_back((id, Instant::now() + self.timeout));
+            let deadline = Instant::now() + self.timeout;
+            self.queue
+                .insert(id, ReassembleQueue::new(total, seq, buf, deadline));
+            self.timer.push_back((id, deadline));
             None
         }
     }
     pub fn timer(&mut self) {
         let now = Instant::now();
         for _ in 0..self.timer.partition_point(|x| x.1 < now) {
-            let id = self.timer.pop_front().unwrap().0;
-            self.queue.remove(&id);
+            let (id, deadline) = self.timer.pop_front().unwrap();
+            // the entry may belong to a newer group that reuses the id of a completed one
+            if let Entry::Occupied(entry) = self.queue.entry(id) {
+                if entry.get().deadline <= deadline {
+                    entry.remove();
+                }
+            }
             // tracing::trace!("removed fragment queue {} by timer", id);
         }
     }
@@ -144,10 +151,11 @@ impl<T: Buf> Iterator for MakeFragments<T> {
 struct ReassembleQueue {
     bitmap: u128,
     fragments: Vec<Bytes>,
+    deadline: Instant,
 }
 
 impl ReassembleQueue {
-    fn new(total: u8, seq: u8, buf: Bytes) -> Self {
+    fn new(total: u8, seq: u8, buf: Bytes, deadline: Instant) -> Self {
         let total = total as usize;
         let this = seq as usize;
         let high = if total >= MAX_FRAGMENTS {
@@ -158,7 +166,11 @@ impl ReassembleQueue {
         let bitmap = high | 1 << this;
         let mut fragments = vec![Bytes::new(); total];
         fragments[this] = buf;
-        Self { bitmap, fragments }
+        Self {
+            bitmap,
+            fragments,
+            deadline,
+        }
     }
     fn add_fragment(&mut self, seq: u8, buf: Bytes) -> bool {
         let this = seq as usize;
